@@ -754,3 +754,55 @@ def stateless_matrix(ctx, n_quick, n_thorough, salt=0, jobs=12):
     ctx.coverage["stateless_models"] = {"runs": agg.runs, "rollbacks_checked": agg.tot.get("s_rb_checked", 0), "forward_steps": agg.tot.get("fwd", 0),
                                         "outcomes": agg.outcomes}
     return agg
+
+
+def msan_matrix(ctx, n_quick, n_thorough, salt=0, jobs=8):
+    """MemorySanitizer (clang): the whole core + harness compiled with -fsanitize=memory from the working tree; serial and scheduled
+    parallel GenModel runs; a `use-of-uninitialized-value` report is a violation with the configuration as replay (reads of message
+    fields the allocator does not initialise - raw_flags, payload bytes beyond pl_size - decide the event order)."""
+    import concurrent.futures
+    import shutil
+    cc = shutil.which("clang-14") or shutil.which("clang")
+    if not cc:
+        ctx.coverage["msan"] = "clang not available"
+        return None
+    srcs = [os.path.join(vlib.HARNESS, "hrun.c")] + ctx.core_sources(mpi=False)
+    cmd = [cc, "-std=gnu11", "-O1", "-g", "-DNDEBUG", "-D" + vlib.GUARD, '-DROOTSIM_VERSION="verif"', "-I" + os.path.join(vlib.REPO, "src"),
+           "-I" + vlib.HARNESS, "-w", "-fsanitize=memory", "-fno-omit-frame-pointer"] + srcs + \
+          ["-Wl,--wrap=stats_take", "-o", ctx.path("hrun_msan"), "-lm", "-lpthread"]
+    rc, o = vlib.run(cmd, timeout=600)
+    ctx.oblige("harness-build:hrun_msan", rc == 0, o[-800:])
+    if rc:
+        return None
+    rnd = random.Random(ctx.seed * 3001 + 17 + salt)
+    n = n_quick if ctx.tier == "quick" else n_thorough
+    jobs_l = []
+    for i, c in enumerate(gen_configs(ctx, n)):
+        c.update({"seed": rnd.randrange(1, 1 << 30), "mseed": rnd.randrange(1, 1 << 30), "thr": rnd.choice([20, 40, 80]),
+                  "t0": rnd.choice([0, 1, 1])})
+        c.pop("skew", None)
+        jobs_l.append(("serial" if i % 2 == 0 else "par", c, i))
+
+    def one(j):
+        mode, c, i = j
+        ops, cf = ctx.path("mo_%d" % i), ctx.path("mc_%d" % i)
+        args = [ctx.path("hrun_msan"), mode, ops, cf] + ["%s=%s" % kv for kv in sorted(c.items())]
+        rc, out = vlib.run(args, timeout=600)
+        for f in (ops, cf):
+            try:
+                os.remove(f)
+            except OSError:
+                pass
+        return mode, c, rc, out
+
+    runs = reports = 0
+    with concurrent.futures.ThreadPoolExecutor(max_workers=jobs) as ex:
+        for mode, c, rc, out in ex.map(one, jobs_l):
+            runs += 1
+            if "MemorySanitizer" in out:
+                reports += 1
+                if reports <= 2:
+                    lines = [l for l in out.splitlines() if "MemorySanitizer" in l or l.strip().startswith("#")][:6]
+                    ctx.violation("use-of-uninitialized-value", {"mode": mode, "cfg": c, "report": lines}, True)
+    ctx.coverage["msan"] = {"runs": runs, "reports": reports}
+    return runs
